@@ -61,6 +61,7 @@ type Prog struct {
 	fileOf  map[*ast.File]*packages.Package
 	A       *Anchors
 	Overlay map[string][]byte
+	errEng  *errEngine
 }
 
 // applyOverlay builds a go/packages overlay from substitutions. It fails if a
